@@ -209,9 +209,6 @@ def _size_minus(e, var):
 
 def _clip(prog, fn):
   d = _defs(fn)
-  probs = _bad(_val(d, 'upper_bounds'), 'tensor form upper bounds',
-               '[dim_size - 1.0 for dim_size in lattice_sizes]',
-               '[dim_size - 1 for dim_size in lattice_sizes]')
   clips = [c for c in ast.walk(fn.node) if _ext(prog, fn, c) ==
            'tf.clip_by_value']
   if len(clips) != 2:
@@ -219,7 +216,23 @@ def _clip(prog, fn):
   t = clips[0]
   lo = _arg(t, 1, 'clip_value_min')
   hi = _arg(t, 2, 'clip_value_max')
-  if _ext(prog, fn, lo) != 'tf.zeros' or 'upper_bounds' not in names_read(hi):
+  # by value: the upper clip is a constant built from ONE bound PER DIMENSION,
+  # size - 1 each (whatever local the list passes through)
+  probs = []
+  hv = _closed(d, hi, set())
+  per_dim = [c for c in ast.walk(hv) if isinstance(c, ast.ListComp) and len(
+      c.generators) == 1 and dotted(c.generators[0].iter) == 'lattice_sizes']
+  if per_dim:
+    probs += _bad(per_dim[0], 'tensor form upper bounds',
+                  '[dim_size - 1.0 for dim_size in lattice_sizes]',
+                  '[dim_size - 1 for dim_size in lattice_sizes]')
+  elif 'lattice_sizes' in names_read(hv):
+    probs.append('the tensor form clips every dimension to the single bound '
+                 '`%s`: a dimension smaller than the largest one is no longer '
+                 'clipped to its own size - 1' % norm_text(hv)[:60])
+  else:
+    raise _Unrecognised('tensor form upper bound: `%s`' % norm_text(hv)[:50])
+  if _ext(prog, fn, lo) != 'tf.zeros':
     probs.append('tensor form clips to (%s, %s), expected (zeros, '
                  'upper_bounds)' % (norm_text(lo)[:30], norm_text(hi)[:30]))
   items = [('tensor', 'inputs clipped to [0, size - 1] per dimension', probs)]
